@@ -51,6 +51,17 @@ def configs(tier):
                     cfg.update(fmg=1, fmg_it=2, fmg_cycle=0, abstol=-1.0, reltol=1e-12, maxit=60, indep=0)
                     out.append(cfg)
             k += 1
+    # two-level hierarchies x every cycle type (the direct-solve branch of each cycle is the whole coarse-grid correction there),
+    # one triple per geometry x problem
+    k = 0
+    for geom, prob in itertools.product((0, 1, 2), (0, 1, 2)):
+        alpha, beta = c01.PROFILES[1 + ((k + 3) % 6)]
+        for strat, extr, cycle in itertools.product((0, 1), (0, 1), (0, 1, 2)):
+            cfg = c01.base(geom, prob, alpha, beta, k % 2, strat, extr, cycle)
+            cfg.update(cc=1, cg=1, maxlev=2)
+            cfg.update(fmg=1, fmg_it=2, fmg_cycle=0, abstol=-1.0, reltol=1e-12, maxit=60, indep=0)
+            out.append(cfg)
+        k += 1
     return out
 
 
@@ -98,7 +109,7 @@ def main(tier):
             continue
         e2 = [gl.num(r, "he2") for r in rs]
         ei = [gl.num(r, "heinf") for r in rs]
-        errs[(name, cfg["dirbc"], cfg["strat"], cfg["cc"], cfg["cg"], cfg["extr"])] = (e2[-1], ei[-1])
+        errs[(name, cfg["dirbc"], cfg["strat"], cfg["cc"], cfg["cg"], cfg["cycle"], cfg["maxlev"], cfg["extr"])] = (e2[-1], ei[-1])
         for d, r, a2, ai in zip(chain_i, rs, e2, ei):
             groups.setdefault((name, cfg["dirbc"], cfg["extr"], d), []).append((a2, ai, cfg, "%sx%s" % (r["nr"], r["nt"])))
         for a in range(len(chain_i) - 1):
@@ -118,7 +129,8 @@ def main(tier):
                 key = ("F1:order:%s" % name) if is_f1 else "order:%s:%s" % ("extrapolated" if ex else "plain", name)
                 rep.violation(key, "%s (%s, DirBC_Interior=%d, strategy=%d, caches=%d%d): observed order %.2f (weighted l2) / %.2f "
                               "(max) on %s, required >= %.2f / %.2f; errors %s" %
-                              (name, "implicit extrapolation" if ex else "no extrapolation", cfg["dirbc"], cfg["strat"], cfg["cc"],
+                              (name, ("implicit extrapolation" if ex else "no extrapolation") + (", cycle %d, maxLevels %d" % (cfg["cycle"], cfg["maxlev"])),
+                               cfg["dirbc"], cfg["strat"], cfg["cc"],
                                cfg["cg"], o2, oi, grid, need2, needi, ["%.3g" % x for x in e2]), {"config": cfg, "chain": list(chain_i)})
     # the converged discrete solution does not depend on the stencil strategy or on the caches: on every grid of the chain the
     # errors of all variants of one triple agree (clean tree: to 2e-10 relative)
@@ -132,18 +144,18 @@ def main(tier):
             hi = max(v, key=lambda x: x[j])
             if hi[j] > lo[j] * (1 + VARIANT_TOL):
                 rep.violation("variant-dependent-solution:%s" % ("extrapolated" if extr else "plain"),
-                              "%s (DirBC_Interior=%d, %s) on %s: the %s error depends on the variant: %.6g with strategy=%d caches=%d%d, "
-                              "%.6g with strategy=%d caches=%d%d" % (name, dirbc, "implicit extrapolation" if extr else "no extrapolation",
-                                                                     hi[3], norm, hi[j], hi[2]["strat"], hi[2]["cc"], hi[2]["cg"],
-                                                                     lo[j], lo[2]["strat"], lo[2]["cc"], lo[2]["cg"]),
+                              "%s (DirBC_Interior=%d, %s) on %s: the %s error depends on the variant: %.6g with strategy=%d caches=%d%d cycle=%d maxLevels=%d, "
+                              "%.6g with strategy=%d caches=%d%d cycle=%d maxLevels=%d" % (name, dirbc, "implicit extrapolation" if extr else "no extrapolation",
+                                                                     hi[3], norm, hi[j], hi[2]["strat"], hi[2]["cc"], hi[2]["cg"], hi[2]["cycle"], hi[2]["maxlev"],
+                                                                     lo[j], lo[2]["strat"], lo[2]["cc"], lo[2]["cg"], lo[2]["cycle"], lo[2]["maxlev"]),
                               {"config": hi[2], "other": lo[2], "chain": [d], "kind": "variant"})
                 break
     # on the finest grid of the chain the extrapolated solution is the more accurate one
     cmp_n = 0
-    for (name, dirbc, strat, cc, cg, extr), (e2, ei) in errs.items():
+    for (name, dirbc, strat, cc, cg, cycle, maxlev, extr), (e2, ei) in errs.items():
         if extr != 0:
             continue
-        other = errs.get((name, dirbc, strat, cc, cg, 1))
+        other = errs.get((name, dirbc, strat, cc, cg, cycle, maxlev, 1))
         if other is None or name.endswith("Poisson_CzarnyGeometry"):
             continue
         cmp_n += 1
